@@ -85,6 +85,27 @@ func VerifC07_PacketInPayload() {
 	c07run(c07frame(Type_PacketIn, prefix, r))
 }
 
+// packet-in carrying Ethernet / IPv6 / a hop-by-hop header of 264 bytes (HEL 32), all Pad1 except
+// one option header with symbolic type and length: the largest option lengths only fit here
+func VerifC07_PacketInLongHopByHop() {
+	const hbh = 264
+	pay := make([]byte, 14+40+hbh)
+	pay[12], pay[13] = 0x86, 0xdd
+	ip := pay[14:]
+	ip[0] = 0x60
+	ip[4], ip[5] = uint8(hbh>>8), uint8(hbh&0xff) // payload length
+	ip[6], ip[7] = 0, 64                          // next header: hop-by-hop
+	h := ip[40:]
+	h[0], h[1] = 59, 32 // no next header; HEL 32
+	at := []int{2, 4, hbh - 4}[vr.Choice("at", 3)]
+	h[at], h[at+1] = vr.U8("opttype"), vr.U8("optlen")
+	prefix := make([]byte, 16+8+2+len(pay))
+	prefix[2], prefix[3] = uint8(len(pay)>>8), uint8(len(pay)&0xff) // total_len
+	prefix[16+1], prefix[16+3] = 1, 4                               // empty OXM match
+	copy(prefix[16+8+2:], pay)
+	c07run(c07frame(Type_PacketIn, prefix, 0))
+}
+
 // instruction / action region inside flow-mod (40 fixed bytes, empty match, instructions)
 func VerifC07_InstructionRegion() {
 	r := vr.IntRange("region", 0, c07pick(16, 24))
@@ -108,6 +129,34 @@ func VerifC07_ActionRegion() {
 func VerifC07_NxActionRegion() {
 	sub := vr.IntRange("subtype", 0, 48)
 	c07run(c07nx(sub, c07sizes(22, 0, 2, 5, 6, 8, 13, 14)))
+}
+
+// two Nicira actions of the same subtype in one apply-actions list, the first with a symbolic length
+// field (0..40 and the top eight values), the second with one from a boundary list: what the first one leaves behind (a wrapped size, an oversized buffer) meets
+// the list loop and a second element; allocations are counted over the whole parse
+func VerifC07_NxActionPair() {
+	sub := vr.IntRange("subtype", 0, 48)
+	prefix := make([]byte, 40+8+8+32)
+	prefix[40+1], prefix[40+3] = 1, 4
+	prefix[48+1] = InstrType_APPLY_ACTIONS
+	prefix[48+2], prefix[48+3] = 0, 8+32
+	for i := 0; i < 2; i++ {
+		a := prefix[56+16*i:]
+		a[0], a[1] = 0xff, 0xff
+		// length field: below the 10-byte Nicira header, the exact 16, just past it, past the list
+		if i == 0 {
+			l := vr.U16("alen0")
+			vr.Assume(l <= 40 || l >= 0xfff8)
+			a[2], a[3] = uint8(l>>8), uint8(l)
+		} else {
+			l := []int{16, 9, 0, 8, 10, 15, 17, 24, 32, 0xffff}[vr.Choice("alen1", c07pick(6, 10))]
+			a[2], a[3] = uint8(l>>8), uint8(l)
+		}
+		a[4], a[5], a[6], a[7] = 0, 0, 0x23, 0x20
+		a[8], a[9] = uint8(sub>>8), uint8(sub)
+		// the bodies are concrete (zero): symbolic bodies are NxActionRegion's subject
+	}
+	c07run(c07frame(Type_FlowMod, prefix, 0))
 }
 
 // multipart reply bodies by type (fixed layouts; desc is 1056 bytes and is only ever truncated here)
